@@ -57,7 +57,9 @@ Qed.
 
 Lemma wf_view : forall n, wf_needle n = true -> view_of n = exp_view n.
 Proof.
-  intros n H. unfold wf_needle in H. apply andb_true_iff in H. destruct H as [H H3].
+  intros n H. unfold wf_needle in H. apply andb_true_iff in H. destruct H as [H _].
+  apply andb_true_iff in H. destruct H as [H _].
+  apply andb_true_iff in H. destruct H as [H H3].
   apply andb_true_iff in H. destruct H as [_ H2].
   unfold view_of, exp_view, stored_name. rewrite (blen_lt_firstn _ H2).
   apply N.ltb_lt in H3. rewrite (N.mod_small _ _ H3). reflexivity.
@@ -162,8 +164,8 @@ Lemma read_spec : forall st sp seen id c now,
       c' = n_cookie n /\
       store_read st id c false now = (ENone, Z.of_N (blen (n_data n)), exp_view n)
   | None =>
-      exists e, (e = ENotFound \/ e = EDeleted) /\
-                store_read st id c false now = (e, (-1)%Z, blank_view c)
+      exists e v, (e = ENotFound \/ e = EDeleted) /\
+                store_read st id c false now = (e, (-1)%Z, v)
   end.
 Proof.
   intros st sp seen id c now (_ & _ & _ & _ & HR). specialize (HR id).
@@ -175,7 +177,7 @@ Proof.
       assert (Hexp : view_expired (exp_view n) (r_at r) now = view_expired (exp_view n) t now).
       { rewrite !view_expired_exp. destruct (expirable n) eqn:E; [rewrite (H8 eq_refl); reflexivity | reflexivity]. }
       assert (Hrd : store_read st id c false now =
-                    if view_expired (exp_view n) t now then (ENotFound, (-1)%Z, blank_view c)
+                    if view_expired (exp_view n) t now then (ENotFound, (-1)%Z, exp_view n)
                     else (ENone, Z.of_N (blen (n_data n)), exp_view n)).
       { unfold store_read. rewrite H1. cbn [nv_off nv_size].
         apply N.eqb_neq in H3. rewrite H3.
@@ -186,15 +188,15 @@ Proof.
         rewrite Hz. unfold read_data. rewrite H2. rewrite Z.eqb_refl. rewrite Hv, Hexp.
         destruct (view_expired (exp_view n) t now); reflexivity. }
       destruct (view_expired (exp_view n) t now).
-      * exists ENotFound. split; [left; reflexivity | exact Hrd].
+      * exists ENotFound, (exp_view n). split; [left; reflexivity | exact Hrd].
       * split; [symmetry; exact H6 | exact Hrd].
     + destruct HR as (off & sz & r & H1 & H2 & H3 & H4 & H5).
-      exists EDeleted. split; [right; reflexivity|].
+      exists EDeleted, (blank_view c). split; [right; reflexivity|].
       unfold store_read. rewrite H1. cbn [nv_off nv_size]. apply N.eqb_neq in H4. rewrite H4.
       assert (Hd : size_deleted sz = true).
       { unfold size_deleted. apply orb_true_iff. left. apply Z.ltb_lt. exact H2. }
       rewrite Hd. reflexivity.
-  - exists ENotFound. split; [left; reflexivity|]. unfold store_read. rewrite HR. reflexivity.
+  - exists ENotFound, (blank_view c). split; [left; reflexivity|]. unfold store_read. rewrite HR. reflexivity.
 Qed.
 
 (* ---------- deletes ---------- *)
@@ -411,7 +413,7 @@ Proof.
   - destruct RS as [Hc Hrd]. rewrite Hrd. cbv beta iota. cbn [err_eqb negb orb].
     rewrite count_nonneg. cbn [exp_view v_cookie]. subst c'.
     destruct (n_cookie n =? c); reflexivity.
-  - destruct RS as (e & [He|He] & Hrd); rewrite Hrd; subst e; reflexivity.
+  - destruct RS as (e & v0 & [He|He] & Hrd); rewrite Hrd; subst e; reflexivity.
 Qed.
 
 Lemma del_step : forall st sp seen id c t,
@@ -432,7 +434,7 @@ Proof.
       * destruct (delete_R st sp seen id (n_cookie n) t HR H1) as (st' & z & Hd & HR').
         rewrite Hd. cbv beta iota. split; [reflexivity|]. split; [exact HR' | intro Hx; congruence].
     + split; [reflexivity|]. split; [exact HR | reflexivity].
-  - destruct RS as (e & [He|He] & Hrd); rewrite Hrd; subst e; cbv beta iota; cbn [err_eqb negb];
+  - destruct RS as (e & v0 & [He|He] & Hrd); rewrite Hrd; subst e; cbv beta iota; cbn [err_eqb negb];
       (split; [reflexivity|]; split; [exact HR | reflexivity]).
 Qed.
 
@@ -463,7 +465,7 @@ Proof.
     + pose proof (read_spec st sp seen id c t HR) as RS. destruct (s_lookup sp id t) as [[c' n]|].
       * destruct RS as [_ Hrd]. rewrite Hrd. cbn [fst snd match_out err_eqb andb].
         rewrite Z.eqb_refl, view_eqb_refl. split; [reflexivity | exact HR].
-      * destruct RS as (e & [He|He] & Hrd); rewrite Hrd; subst e; (split; [reflexivity | exact HR]).
+      * destruct RS as (e & v0 & [He|He] & Hrd); rewrite Hrd; subst e; (split; [reflexivity | exact HR]).
   - unfold step, spec_step. pose proof HR as (H1 & _). destruct (s_nwod sp) eqn:Hro.
     + unfold store_delete. rewrite H1. split; [reflexivity | exact HR].
     + destruct (delete_R st sp seen id c t HR H1) as (st' & z & Hd & HR'). rewrite Hd.
@@ -546,7 +548,7 @@ Proof.
     destruct (n_cookie n =? c) eqn:E.
     + apply N.eqb_eq in E. exfalso. apply (Hno n). congruence.
     + cbn [negb]. exists 400. split; [left; reflexivity | reflexivity].
-  - destruct RS as (e & [E|E] & Hrd); rewrite Hrd; subst e; cbv beta iota; cbn [err_eqb negb];
+  - destruct RS as (e & v0 & [E|E] & Hrd); rewrite Hrd; subst e; cbv beta iota; cbn [err_eqb negb];
       exists 404; (split; [right; reflexivity | reflexivity]).
 Qed.
 
